@@ -282,10 +282,18 @@ class Model:
             raise AnalysisError("anchor function not found: %s" % qual)
         return fn
 
-    def method(self, cls, name):
+    def method(self, cls, name, or_module_function=False):
+        """or_module_function: a private helper of the class may have been moved to the module level of the
+        class's module (it then has no self parameter)."""
         if cls not in self.classes:
             raise AnalysisError("anchor class not found: %s" % cls)
         fn = self.lookup(cls, name)
+        if fn is None and or_module_function:
+            own = [f for f in self.funcs.values() if f.cls == cls]
+            mods = {f.module for f in own}
+            cands = [g for mod in mods for g in [self.module_funcs.get(mod, {}).get(name)] if g is not None]
+            if len(cands) == 1:
+                return cands[0]
         if fn is None:
             raise AnalysisError("anchor method not found: %s.%s" % (cls, name))
         return fn
